@@ -116,13 +116,14 @@ Proof. exact dead_init_any_attr. Qed.
 Print Assumptions C09_dead_initializer_kept_whatever_attr.
 
 (* ---- the ORDER of the effects of `local v1, .., vn = e1, .., em` (VarDecl.v) ----
-   full statement: dead code elimination does not change the order in which the initializers run.
-   False today: the initializer of a dropped variable is written to `emitter`, the definitions of the kept
-   ones to `defemitter`, which is appended last.  `local a, b = f(), g()` with b never read runs g first in the
-   default build and f first with -P nodce (corpus/C09/vardecl_order.nelua, known finding). *)
-Theorem C09_vardecl_order_refuted : ~ vardecl_order_dce_full vardecl_policy.
-Proof. exact vardecl_order_refuted. Qed.
-Print Assumptions C09_vardecl_order_refuted.
+   full strength: dead code elimination does not change the order in which the initializers run, for every
+   well-formed declaration.  True since /repo d685d37 (the initializer of a dropped variable is written to
+   `defemitter` like the definitions of the kept ones; the placement is scraped into Gen.vardecl_policy).  Before,
+   `local a, b = f(), g()` with b never read ran g first in the default build and f first with -P nodce; the
+   witness (corpus/C09/witness/vardecl_order.nelua) is still replayed on every run and must agree. *)
+Theorem C09_vardecl_order : vardecl_order_dce_full vardecl_policy.
+Proof. exact vardecl_order_dce. Qed.
+Print Assumptions C09_vardecl_order.
 
 (* for every placement of the two kinds of statements: the order is independent of dead code elimination
    exactly when dropped initializers go to defemitter (the proposed repair) *)
@@ -130,7 +131,7 @@ Theorem C09_vardecl_order_iff_policy : forall pol, vardecl_order_dce_full pol <-
 Proof. exact vd_dce_iff. Qed.
 Print Assumptions C09_vardecl_order_iff_policy.
 
-(* what does hold today, for every placement and every declaration: no effect is lost or duplicated by either
+(* for every placement and every declaration (also the unrepaired one): no effect is lost or duplicated by either
    build mode (both orders are permutations of the source order), and a declaration with at most one effectful
    value runs it in the same place *)
 Theorem C09_vardecl_effects_partial : forall pol l,
